@@ -309,6 +309,12 @@ def examine_output_dir_to_determine_current_iteration(output_dir, batch_size):
 
         plate_dirs = sorted(plate_dirs, key=dir_sort_key)
 
+        if not plate_dirs:
+            # an iteration directory without any plate directory (left by an
+            # interruption between the creation of the two directory levels, or
+            # after an incomplete plate_0 was deleted) carries no state
+            continue
+
         current_plate_idx = 0
 
         for idx, plate_dir in enumerate(plate_dirs):
